@@ -384,13 +384,20 @@ func vSetCard(s set.Set) int {
 // one differs from it by at most 1 + p*2^-50.
 func vInstallBurstStub() {
 	vOverride("github.com/omec-project/upf-epc/pfcpiface.calcBurstSizeFromRate", func(kbps uint64, ms uint64) uint64 {
+		r := vU64("aux_burst") // engine-internal input (the native run computes the real value)
+		if vBurstLoose != 0 {
+			// harnesses that assert nothing about bursts: an arbitrary value (no
+			// multiply/divide constraints in the path condition)
+			return r
+		}
 		vAssume(kbps < 1<<41)
 		vAssume(ms < 1<<16)
 		p := kbps * ms
-		r := vU64("aux_burst") // engine-internal input (the native run computes the real value)
 		slack := 1 + p>>50
 		vAssume(r+slack >= p/8)
 		vAssume(r <= p/8+slack)
 		return r
 	})
 }
+
+var vBurstLoose = 0
